@@ -20,7 +20,7 @@ def check(run):
     run.lean_props(common.modules_for("C08"))
     rng = run.rng
     betas = corr.expibeta_strata(rng, 2)
-    kern.corr_H(run, [(L, P) for L in range(0, 7 if quick else 12) for P in sorted({0, 1, L // 2, max(L - 1, 0), L}) if P <= L], betas[:6] if quick else betas, [float("nan")])
+    run.attempt("corr:corr_H", kern.corr_H, run, [(L, P) for L in range(0, 7 if quick else 12) for P in sorted({0, 1, L // 2, max(L - 1, 0), L}) if P <= L], betas[:6] if quick else betas, [float("nan")])
     rotors = [r for r in corr.rotor_strata(rng, 3 if quick else 10) if "subnormal" not in r[0] and "1e-160" not in r[0]]
     LM = 12 if quick else 24
     cfgs = []
@@ -76,6 +76,9 @@ def check(run):
                 modes = helpers.make_modes(rng, s, Lm)
                 a = w.evaluate(modes, Rq, horner=True)
                 b = spherical.Wigner(Lm, mp_max=abs(s)).evaluate(modes, Rq, horner=True)
+                am = np.asarray(w.evaluate(modes, Rq, horner=False))
+                if am.shape != np.asarray(b).shape or not np.allclose(am, np.asarray(b), rtol=1e-11, atol=1e-11 * max(float(np.sum(np.abs(modes.ndarray))), 1e-300)):
+                    run.violation("value-depends-on-calculator-size", "Wigner.evaluate[horner=False]", {**inp, "s": s, "ell_max_modes": Lm}, "same value (to rounding) as exactly sized calculator", f"{am} vs {np.asarray(b)}")
                 run.gap_case("evaluate-cross-config", (c, R, s, Lm), lab)
                 if not helpers.bits_equal(np.asarray(a), np.asarray(b)):
                     run.violation("value-depends-on-calculator-size", "Wigner.evaluate[horner=True]", {**inp, "s": s, "ell_max_modes": Lm}, "bit-identical to exactly sized calculator", "differs")
